@@ -80,6 +80,12 @@ CHECKS = {
         note="Distance oracle: first-order implicit estimate when far below the bound, otherwise sampled + golden-section true distance. Bounds apply at or above the default subdivision (30 degree slices).",
         ref="5/C19",
     ),
+    "C16": dict(
+        technique="model-based property testing over operation histories (reverse path / reverse subpath / transform+reify) against a subpath model of the path",
+        text="Generated paths of 1..4 subpaths (open, closed with zero and non-zero closes, single-segment, move-only, all segment kinds) with histories of 1..6 operations: reverse the path, reverse subpath i, multiply by an isometry/similarity and reify. After every step the library path is compared with the model: kinds in order, each drawn segment pointwise q(t) = p(1-t), connectivity, closes returning to their own subpath, untouched segments outside a reversed window; double reversal must equal the original (== and pointwise). Exploration.",
+        note="Model evaluators are copies of the original segments composed with t -> 1-t and the matrix by harness arithmetic. Paths with a subpath that has no move of its own are the known finding KF-REVERSE-NO-MOVE (generated in a separate part, reported only under that finding).",
+        ref="5/C16",
+    ),
 }
 
 REASON_PENDING = "no check registered yet in this build; the design (DESIGN.md section 5) covers it with property-based testing"
